@@ -536,7 +536,10 @@ impl Terminal for UnixTerminal {
         while let Some(event) = self.poll(None)? {
             match event {
                 TerminalEvent::DeviceAttrs(..) => {
-                    self.events_queue.extend(queue);
+                    // intercepted events are older than anything still queued
+                    for event in queue.into_iter().rev() {
+                        self.events_queue.push_front(event);
+                    }
                     return Ok(pos);
                 }
                 TerminalEvent::CursorPosition(term_pos) => {
